@@ -281,14 +281,14 @@ func ToCommandLine(wf WireFormat, resolveIds bool) (rule string, err error) {
 					rhs = strconv.Itoa(exitCode)
 				}
 			case uidField, euidField, suidField, fsuidField, auidField, objectUIDField:
-				rhs = strconv.Itoa(int(int32(value)))
+				rhs = formatID(value)
 				if resolveIds {
 					if user, err := user.LookupId(rhs); err == nil {
 						rhs = user.Username
 					}
 				}
 			case gidField, egidField, sgidField, fsgidField, objectGIDField:
-				rhs = strconv.Itoa(int(int32(value)))
+				rhs = formatID(value)
 				if resolveIds {
 					if group, err := user.LookupGroupId(rhs); err == nil {
 						rhs = group.Name
@@ -786,6 +786,15 @@ func addFilter(rule *ruleData, lhs, comparator, rhs string) error {
 	rule.fields = append(rule.fields, field)
 	rule.fieldFlags = append(rule.fieldFlags, op)
 	return nil
+}
+
+// formatID prints a uid or gid the way getUID and getGID read it back: the
+// unset ID as -1, every other value as an unsigned number.
+func formatID(id uint32) string {
+	if id == math.MaxUint32 {
+		return "-1"
+	}
+	return strconv.FormatUint(uint64(id), 10)
 }
 
 func getUID(uid string) (uint32, error) {
